@@ -418,7 +418,15 @@ def case_pack(case):
                 eng().assume(z3.ULT(bvs[nm], w))
             return bvs[nm]
 
-        res = execute(srcs, ops, getbv)
+        try:
+            for op in ops:
+                op.verify()
+            res = execute(srcs, ops, getbv)
+        except (sym.Unsupported, sym.PathAbort):
+            raise
+        except Exception as e:  # operand widths that do not fit together
+            eng().oblige("pack_bitlist:emitted_ops_are_well_typed", False, dict(error=f"{type(e).__name__}: {str(e)[:120]}"))
+            return
         exp = z3.BitVecVal(0, w)
         for i, k in enumerate(kinds):
             v = bvs[f"v{i}"] if k[0] == "s" else ibv[f"v{i}"]
@@ -430,7 +438,12 @@ def case_pack(case):
     def replay(f):
         m = f["model"]
         srcs, ops = build(lambda nm: mval(m, nm + "_int"))
-        res = execute(srcs, ops, lambda nm: z3.BitVecVal(mval(m, nm + "_ssa"), w))
+        try:
+            for op in ops:
+                op.verify()
+            res = execute(srcs, ops, lambda nm: z3.BitVecVal(mval(m, nm + "_ssa"), w))
+        except Exception as e:
+            return True, f"kinds={kinds} w={w}: emitted ops are not well typed: {type(e).__name__}: {str(e)[:160]}"
         got = irsym.bvval(res)
         exp = 0
         for i, k in enumerate(kinds):
@@ -445,6 +458,25 @@ def case_pack(case):
 
 # ------------------------------------------------------------------ (f) print -> parse
 
+def opt_classes():
+    """Streamer option classes by class name, collected from the class hierarchy and not from the name table the parser uses."""
+    import inspect
+
+    import snaxc.accelerators.streamers.extensions as ext
+    import snaxc.accelerators.streamers.streamers as st
+
+    out = {}
+    todo = list(st.StreamerOpts.__subclasses__())
+    while todo:
+        c = todo.pop()
+        todo.extend(c.__subclasses__())
+        if inspect.isabstract(c):
+            continue
+        if getattr(ext, c.__name__, None) is c or getattr(st, c.__name__, None) is c:
+            out[c.__name__] = c
+    return out
+
+
 
 def case_printparse(case):
     from xdsl.parser import Parser
@@ -454,9 +486,9 @@ def case_printparse(case):
     from snaxc.dialects.snax_stream import StridePattern
     from snaxc.dialects.snax import StreamerConfigurationAttr
     from snaxc.accelerators.streamers.streamers import Streamer, StreamerConfiguration, StreamerSystemType, StreamerType
-    from snaxc.accelerators.streamers.extensions import STREAMER_OPT_MAP
     from .. import xshim
 
+    OPT_CLASSES = opt_classes()
     ctx = xshim.make_ctx()
     kind = case[0]
 
@@ -499,7 +531,7 @@ def case_printparse(case):
         _, streamers, systype = case
 
         def mk():
-            ss = [Streamer(StreamerType(t), list(temp), list(spat), [STREAMER_OPT_MAP[o]() for o in opts])
+            ss = [Streamer(StreamerType(t), list(temp), list(spat), [OPT_CLASSES[o]() for o in opts])
                   for (t, temp, spat, opts) in streamers]
             return StreamerConfigurationAttr(StreamerConfiguration(ss, StreamerSystemType(systype)))
 
@@ -645,9 +677,7 @@ def run(chk):
             combos = rnd.sample(combos, 64 if quick else 256)
         for c in combos:
             cases.append(("stride", nt, ns, list(c)))
-    from snaxc.accelerators.streamers.extensions import STREAMER_OPT_MAP
-
-    optnames = sorted(STREAMER_OPT_MAP)
+    optnames = sorted(opt_classes())
     for systype in ("reg", "xdma"):
         for t in ("r", "w"):
             for temp in (["n"], ["n", "i", "r"], ["r", "n", "n", "n", "n", "i"]):
